@@ -276,7 +276,7 @@ Proof.
   destruct r as [bs|b l|s l].
   - apply replace_inner_other_wp; [reflexivity|]. apply Hsame; auto.
   - destruct Hr as (x & Hb & Hl & _). destruct (MI_lookup _ _ _ _ HM Hb Hl) as (Hw & Hcx & Hox).
-    eapply replace_inner_heap_wp; [exact Hb|exact Hl|exact Hw|]. intros m' He Hh Hn.
+    eapply replace_inner_heap_wp; [exact Hb|exact Hl|exact Hw|lia|]. intros m' He Hh Hn.
     assert (F : frame (heap m) (heap m') (others own (Heap b l))).
     { rewrite Hh. apply frame_release; auto. unfold others. cbn [names]. rewrite Nat.eqb_refl. cbn [one]. lia. }
     apply HQ; auto.
